@@ -123,6 +123,21 @@ func (m *c26Metrics) bySuffix(which map[string]int64, suffix string) (int64, []s
 	}
 	return sum, names
 }
+
+// activity grows with every counter increment and histogram observation.
+func (m *c26Metrics) activity() int64 {
+	m.mu.Lock()
+	defer m.mu.Unlock()
+	var n int64
+	for _, v := range m.count {
+		n += v
+	}
+	for _, v := range m.histN {
+		n += v
+	}
+	return n
+}
+
 func (m *c26Metrics) staleTicks() int64 {
 	n, _ := m.bySuffix(m.histN, "_stale_dispatch_time")
 	return n
@@ -1051,6 +1066,7 @@ type c26Outcome struct {
 	overdue         *c26Overdue
 	stopHung        bool
 	stopFakeWait    time.Duration
+	stopSlow        bool
 	abandonedBefore int
 	stopRealWait    time.Duration
 }
@@ -1236,9 +1252,17 @@ func c26Execute(t *testing.T, p *c26Plan) *c26Outcome {
 	}()
 	// Bounded progress: Stop has to return within a generous real-time budget while
 	// fake time is pushed far beyond every Retry-After (7 s per iteration below).
-	stopBudget := 75 * time.Second
-	if c26SyncLosses > 0 {
-		stopBudget = 12 * time.Second
+	// The verdict "did not return" additionally needs a final observation window
+	// without any progress (no new request, no metric activity).
+	stopBudget, stillWindow := 100*time.Second, 20*time.Second
+	if c26Abandoned > 0 { // process already polluted by a spinning transmission; a verdict exists
+		stopBudget, stillWindow = 15*time.Second, 5*time.Second
+	}
+	progress := func() int64 {
+		lg.mu.Lock()
+		n := int64(len(lg.reqs))
+		lg.mu.Unlock()
+		return n + m.activity()
 	}
 	stopCalledAt := clock.Now()
 	watchdog := time.After(stopBudget)
@@ -1254,9 +1278,10 @@ wait:
 			out.atStop = n
 			break wait
 		case <-watchdog:
-			if clock.Now().Sub(stopCalledAt) < 10*time.Minute {
-				clock.Advance(10 * time.Minute)
-				time.Sleep(2 * time.Second)
+			before := progress()
+			for end := time.Now().Add(stillWindow); time.Now().Before(end); {
+				clock.Advance(time.Minute)
+				time.Sleep(5 * time.Millisecond)
 				select {
 				case n := <-done:
 					out.atStop = n
@@ -1264,9 +1289,12 @@ wait:
 				default:
 				}
 			}
+			if progress() != before {
+				out.stopSlow = true // still working: a matter of machine load, not a verdict
+			}
 			out.stopHung = true
 			out.stopFakeWait = clock.Now().Sub(stopCalledAt)
-			out.stopRealWait = stopBudget
+			out.stopRealWait = stopBudget + stillWindow
 			out.abandonedBefore = c26Abandoned
 			c26Abandoned++
 			c26SyncLosses++
@@ -1552,6 +1580,10 @@ func c26Check(run *verifkit.Run, o *c26Outcome) {
 			if e.Class == "deliverable" && !seenIDs[e.ID] {
 				nUnsettled++
 			}
+		}
+		if o.stopSlow {
+			run.Inconclusive(fmt.Sprintf("Stop did not return within %v but the transmission was still making progress (machine load)", o.stopRealWait))
+			return
 		}
 		if cls == "no-event-over-5MB" && o.abandonedBefore > 0 {
 			run.Inconclusive(fmt.Sprintf("Stop did not return within %v in a process that already holds %d abandoned, still spinning transmissions", o.stopRealWait, o.abandonedBefore))
